@@ -26,7 +26,7 @@ func kIn(atoms ...string) KSet {
 	}
 	return k
 }
-func kwAtom(s string) string    { return identAtom + ":" + strings.ToUpper(s) }
+func kwAtom(s string) string     { return identAtom + ":" + strings.ToUpper(s) }
 func identNamed(s string) string { return identAtom + "~" + strings.ToUpper(s) }
 
 func (k KSet) IsEmpty() bool { return !k.neg && len(k.m) == 0 }
